@@ -98,6 +98,12 @@ theorem C08_ssz_dynamic_list_roundtrip (items : List (List Nat)) (hn : items.len
     generated code decodes back from its encoding -/
 theorem C08_ssz_QbftMessage_roundtrip (m : QMsg) (h : m.WF) : decodeQMsg (encodeQMsg m) = .ok m := decode_encodeQMsg h
 
+/-- the outer `qbft.SignedMessage` (signature, signer list, embedded message, full data): every message within the limits of the
+    generated code decodes back from its encoding — with the three theorems above and below, every SSZ decoder of the validation
+    path has a proved round trip -/
+theorem C08_ssz_SignedMessage_roundtrip (m : SignedMsg) (h : m.WF) : decodeSigned (encodeSigned m) = .ok m :=
+  decode_encodeSigned h
+
 /-- non-vacuity: a message with an identifier, one round-change justification and two prepare justifications is well-formed -/
 example : ({ msgType := 1, height := 2, round := 3, identifier := [7, 7], root := List.replicate 32 9, dataRound := 0,
              rcj := [[1, 2, 3]], pj := [[5], [6, 6]] } : QMsg).WF :=
